@@ -8,6 +8,7 @@ import AikenVerif.Drivers.Budget
 import AikenVerif.Drivers.Prec
 import AikenVerif.Drivers.Text
 import AikenVerif.Drivers.Match
+import AikenVerif.Drivers.Iso
 /-!
 Native driver: line protocol.  Each request line is
   `<sub-command> <case-id> <fields…>`
@@ -38,6 +39,7 @@ def dispatch (st : DriverState) (sub : String) (args : List String) : DriverStat
   | "text-parse" => (st, Drivers.Text.handleParse args)
   | "text-lex" => (st, Drivers.Text.handleLex args)
   | "match" => (st, Drivers.Match.handle args)
+  | "iso" => (st, Drivers.Iso.handle args)
   | _ => (st, "unknown-subcommand")
 
 partial def loop (h : IO.FS.Stream) (out : IO.FS.Stream) (st : DriverState) : IO Unit := do
